@@ -319,7 +319,8 @@ Inductive lkind := LNum | LNone | LStr | LOther | LClass.
 Definition is_str (lk : lkind) : bool := match lk with LStr => true | _ => false end.
 
 (* tname = type(value).__name__, cname = camel_to_snake(tname, '-'), raw = the string itself (LStr),
-   rep = what simple_value's value_repr() returns for a short string / a non-string,
+   rep = what simple_value's value_repr() returns for a non-string (and for a short string with code points above 255; the repr
+   of a Latin-1 string is computed by the model: py_repr),
    fmt = what utils.format returns for the summary tooltip.  All five are arbitrary strings for the theorems. *)
 Inductive pv : Type :=
 | PLeaf (lk : lkind) (tname cname raw rep fmt : str)
@@ -474,6 +475,22 @@ Definition title_of (v : pv) : str :=
   | PNode _ t _ _ _ => t ++ s_dots
   end.
 
+(* Python's repr of a str (unicode_repr), exact on Latin-1 strings, where printability is a finite table: the quote is a double
+   quote when the string has an apostrophe and no double quote; the quote and the backslash are backslash-escaped; TAB LF CR are
+   \t \n \r; the other C0/C1 controls, DEL, NBSP and the soft hyphen are \xNN.  (Strings with code points above 255 keep the
+   repr carried by the value.) *)
+Definition hex_digit (n : N) : N := if n <? 10 then 48 + n else 87 + n.
+Definition py_repr_char (q c : N) : str :=
+  if (c =? q) || (c =? 92) then [92; c]
+  else if c =? 9 then [92; 116] else if c =? 10 then [92; 110] else if c =? 13 then [92; 114]
+  else if (c <? 32) || (c =? 127) || ((128 <=? c) && (c <=? 160)) || (c =? 173)
+       then [92; 120; hex_digit (c / 16); hex_digit (c mod 16)]
+  else [c].
+Definition py_repr (s : str) : str :=
+  let q := if existsb (N.eqb 39) s && negb (existsb (N.eqb 34) s) then 34 else 39 in
+  q :: flat_map (py_repr_char q) s ++ [q].
+Definition latin1 (s : str) : bool := forallb (fun c => c <? 256) s.
+
 Section TreeView.
   Variable o : opts.
 
@@ -567,7 +584,7 @@ Section TreeView.
 
   (* simple_value's value_repr: a string shorter than max_summary_len_for_str is shown through repr, a longer one as it is *)
   Definition leaf_text (lk : lkind) (raw rep : str) : str :=
-    if is_str lk then (if (Z.of_nat (List.length raw) <? o_max_len o)%Z then rep else raw) else rep.
+    if is_str lk then (if (Z.of_nat (List.length raw) <? o_max_len o)%Z then (if latin1 raw then py_repr raw else rep) else raw) else rep.
 
   (* HtmlTreeView._render: summary + content (simple_value / complex_value) *)
   Fixpoint tv (css : list str) (scolor : option str * option str) (name : option key) (path : list key) (cl : option Z)
@@ -754,6 +771,8 @@ Definition run_content (c : tr) : tr :=
       | Some s' => L [I 2%Z; estr (escape s'); estr (unescape s'); ebool (no_metab (escape s'))]
       | None => ebad
       end
+  | L [I 10%Z; s] =>
+      match dstr s with Some s' => L [I 10%Z; ebool (latin1 s'); estr (py_repr s')] | None => ebad end
   | L [I 4%Z; t] =>
       match d_hnode 100 t with
       | Some t' => L [I 4%Z; estr (render t'); ebool (names_okb t'); ebool (reads_back t')]
